@@ -26,6 +26,7 @@ func checkC04(r *Run) {
 		return
 	}
 	ruleA9Event(r, p, false)
+	ruleNilOrder(r, p, []string{""})
 	ruleGate(r, p, true)
 	ruleNewEventNil(r, p)
 	ruleWithLevel(r, p)
